@@ -1543,4 +1543,327 @@ theorem findBinding_key_mem (vs : List Node) (k : Text) (b : Node) (h : findBind
   have := mem_denoteL_of_mem vs k i ne val bf af (by rw [hvs]; simp)
   exact List.mem_map.mpr ⟨_, this, rfl⟩
 
+/-- the binding a path leads to, following first bindings by name through set values -/
+def bindAt : Node → List Text → Option Node
+  | _, [] => none
+  | T, k :: ks =>
+    match ks with
+    | [] => findBinding T.setValues k
+    | _ :: _ => match stepInto T k with
+      | some v => bindAt v ks
+      | none => none
+
+theorem assignThrough_ok (ts : Node) (wl : Bool) (name : Text) (v : Node) (d : Doc) :
+    ∃ b d', assignThrough ts wl name v d = (.ok b, d') := by
+  simp only [assignThrough, EditM.bind_apply, EditM.get_apply]
+  by_cases h : (scopeChain d ts wl).isEmpty = true
+  · simp only [h, if_true]; exact ⟨_, _, rfl⟩
+  · simp only [h]
+    cases resolveIdent (List.foldl (fun n s => n + s.length) 1 (scopeChain d ts wl))
+      (scopeChain d ts wl).reverse name [] with
+    | none => exact ⟨_, _, rfl⟩
+    | some bid => exact ⟨_, _, rfl⟩
+
+theorem assignExisting_ok (ts parent : Node) (wl : Bool) (b v : Node) (d : Doc) :
+    ∃ d', assignExisting ts parent wl b v d = (.ok (), d') := by
+  cases b with
+  | bind i n ne val bf af =>
+    cases val with
+    | ident targetName =>
+      simp only [assignExisting, bindId?, bindValue?, EditM.bind_apply]
+      obtain ⟨r, d1, e⟩ := assignThrough_ok ts wl targetName v d
+      simp only [e]
+      cases r with
+      | true => exact ⟨_, rfl⟩
+      | false =>
+        simp only [Bool.false_eq_true, if_false, EditM.bind_apply, EditM.get_apply]
+        generalize List.find? _ _ = r1
+        cases r1 with
+        | some outer => cases outer <;> exact ⟨_, rfl⟩
+        | none =>
+          simp only
+          generalize findBinding parent.setValues targetName = r2
+          cases r2 with
+          | some sib => cases sib <;> exact ⟨_, rfl⟩
+          | none => exact ⟨_, rfl⟩
+    | _ => exact ⟨_, rfl⟩
+  | _ => exact ⟨_, rfl⟩
+
+theorem setSetItem_ok (s : Node) (k : Text) (v : Node) (d : Doc) (hs : s.isSet = true) :
+    ∃ d', setSetItem s k v d = (.ok (), d') := by
+  obtain ⟨c, vs, o, m, r, rfl⟩ := (isSet_iff s).mp hs
+  cases hf : findBinding (Node.set c vs o m r).setValues k with
+  | none =>
+    obtain ⟨d', e, _⟩ := setSetItem_fresh _ k v c d hf rfl
+    exact ⟨d', e⟩
+  | some b =>
+    obtain ⟨i, ne, val, bf, af, _, _, rfl, _, _⟩ := findBinding_some _ _ _ hf
+    exact ⟨_, by simp only [setSetItem, hf, bindId?]; rfl⟩
+
+/-- below a freshly created empty set, `_resolve_npath_parent(create_missing=True)` cannot fail -/
+theorem resolveParentWalk_empty_ok (ks : List Text) : ∀ (n : Nat) (ml : Bool) (d : Doc),
+    ∃ parent d1, resolveParentWalk true (.set n [] [] ml false) ks d = (.ok parent, d1) ∧ parent.isSet = true := by
+  induction ks with
+  | nil => intro n ml d; exact ⟨_, _, rfl, rfl⟩
+  | cons k ks ih =>
+    intro n ml d
+    have hg : ∃ e, setGetItem (.set n [] [] ml false) k = .error e := by
+      simp only [setGetItem, setValues, findBinding, List.find?_nil, inheritMentions, List.any_nil,
+        Bool.false_eq_true, if_false]
+      cases splitAttrpath k with
+      | error e => exact ⟨_, rfl⟩
+      | ok segs =>
+        simp only
+        split
+        · exact ⟨_, rfl⟩
+        · cases segs with
+          | nil => exact ⟨_, rfl⟩
+          | cons a b =>
+            cases b with
+            | nil => simp [setGetItem.walk, setValues, findBinding]
+            | cons a2 b2 => simp [setGetItem.walk, setValues, findBinding]
+    obtain ⟨e, hg⟩ := hg
+    simp only [resolveParentWalk, hg, Bool.not_true, Bool.false_eq_true, if_false, setSid_set, EditM.bind_apply,
+      fresh_apply, setMultiline]
+    obtain ⟨d2, e2, _⟩ := setSetItem_fresh (.set n [] [] ml false) k (.set d.next [] [] ml false) n
+      { d with next := d.next + 1 } (by simp [setValues, findBinding]) rfl
+    simp only [e2]
+    exact ih _ _ _
+
+theorem denote_nonset (v : Node) (h : v.isSet = false) : ∃ lf, denote v = .leaf lf := by
+  cases v <;> simp [isSet] at h <;> exact ⟨_, rfl⟩
+
+theorem lookup_of_stepInto (cur : Node) (k : Text) (v : Node) (hn : (denote cur).nodup = true)
+    (h : stepInto cur k = some v) : ∃ kids, denote cur = .node kids ∧ Kids.lookup k kids = some (denote v) := by
+  obtain ⟨s, o, m, r, i, ne, bf, af, pre, post, rfl, hpre⟩ := stepInto_some cur k v h
+  simp only [denote_set, AttrTree.nodup_node] at hn
+  exact ⟨_, rfl, lookup_of_findBinding _ k i ne v bf af hn (stepInto_of_split s o m r i k ne v bf af pre post hpre).1⟩
+
+theorem bindAt_cons (T : Node) (k : Text) (ks : List Text) (hne : ks ≠ []) :
+    bindAt T (k :: ks) = (stepInto T k).bind (bindAt · ks) := by
+  cases ks with
+  | nil => exact absurd rfl hne
+  | cons a b => simp only [bindAt]; cases stepInto T k <;> rfl
+
+/-- why `_resolve_npath_parent` fails: a value on the way is not a set, or (without `create_missing`) a
+    name on the way is not bound -/
+theorem resolveParentWalk_fail (cm : Bool) (ks : List Text) : ∀ (cur : Node) (d d1 : Doc) (e : Err),
+    (∀ k ∈ ks, plainKey k = true) → cur.isSet = true → (denote cur).nodup = true →
+    resolveParentWalk cm cur ks d = (.error e, d1) →
+    (e = .value ∧ ∃ j, j < ks.length ∧ ∃ lf, treeAt (denote cur) (ks.take (j + 1)) = some (.leaf lf)) ∨
+    (cm = false ∧ e = .key ∧ ∀ final, bindAt cur (ks ++ [final]) = none) := by
+  induction ks with
+  | nil => intro cur d d1 e _ _ _ h; rw [resolveParentWalk_nil] at h; cases h
+  | cons k ks ih =>
+    intro cur d d1 e hplain hset hn h
+    obtain ⟨c, vs, o, m, r, rfl⟩ := (isSet_iff cur).mp hset
+    simp only [resolveParentWalk] at h
+    cases hg : setGetItem (.set c vs o m r) k with
+    | ok val =>
+      simp only [hg] at h
+      rcases setGetItem_ok _ k _ (hplain k (by simp)) hg with hst | ⟨hnone, hinh, hval⟩
+      · obtain ⟨kids, hk1, hk2⟩ := lookup_of_stepInto _ k val hn hst
+        cases hvs : val.isSet with
+        | true =>
+          obtain ⟨s2, vs2, o2, m2, r2, rfl⟩ := (isSet_iff val).mp hvs
+          simp only at h
+          have hn2 : (denote (.set s2 vs2 o2 m2 r2)).nodup = true := by
+            rw [hk1] at hn
+            exact AttrTree.nodupL_lookup k _ kids (by simpa using hn) hk2
+          rcases ih _ d d1 e (fun k' hk' => hplain k' (by simp [hk'])) rfl hn2 h with ⟨he, j, hj, lf, ht⟩ | ⟨hc, he, hb⟩
+          · left
+            refine ⟨he, j + 1, by simp only [List.length_cons]; omega, lf, ?_⟩
+            rw [hk1]; simp only [List.take_succ_cons, treeAt, hk2]; exact ht
+          · right
+            refine ⟨hc, he, fun final => ?_⟩
+            rw [List.cons_append, bindAt_cons _ k _ (by simp), hst]; exact hb final
+        | false =>
+          have he : e = .value := by
+            cases val <;> simp [isSet] at hvs <;> simp only [EditM.throw_apply] at h <;> (injection h with h1 _; injection h1 with h1; exact h1.symm)
+          obtain ⟨lf, hlf⟩ := denote_nonset val hvs
+          left
+          refine ⟨he, 0, by simp, lf, ?_⟩
+          rw [hk1]; simp only [List.take_succ_cons, List.take_zero, treeAt, hk2, hlf]
+      · subst hval
+        simp only [EditM.throw_apply] at h
+        injection h with h1 _; injection h1 with h1
+        left
+        refine ⟨h1.symm, 0, by simp, .ident k, ?_⟩
+        simp only [denote_set, AttrTree.nodup_node] at hn
+        have hm := inheritMentions_mem vs k hinh
+        simp only [denote_set, List.take_succ_cons, List.take_zero, treeAt,
+          Kids.lookup_of_mem_nodup k _ _ ((AttrTree.nodupL_iff _).mp hn).1 hm]
+    | error e0 =>
+      obtain ⟨hnone, hinh⟩ := setGetItem_err _ k e0 hg
+      simp only [hg] at h
+      cases cm with
+      | false =>
+        simp only [Bool.not_false, if_true, EditM.throw_apply] at h
+        injection h with h1 _; injection h1 with h1
+        right
+        refine ⟨rfl, h1.symm, fun final => ?_⟩
+        rw [List.cons_append, bindAt_cons _ k _ (by simp)]
+        simp [stepInto, hnone]
+      | true =>
+        exfalso
+        simp only [Bool.not_true, Bool.false_eq_true, if_false, setSid_set, EditM.bind_apply, fresh_apply,
+          setMultiline] at h
+        obtain ⟨d2, e2, _⟩ := setSetItem_fresh (.set c vs o m r) k (.set d.next [] [] m false) c
+          { d with next := d.next + 1 } hnone rfl
+        simp only [e2] at h
+        obtain ⟨parent, d3, e3, _⟩ := resolveParentWalk_empty_ok ks d.next m d2
+        rw [e3] at h; cases h
+
+theorem formatNPath_ne_nil (p : Text) (segs : List Text) (h : formatNPath currentAnchor p = .ok segs) :
+    segs ≠ [] := by
+  unfold formatNPath parseNPath at h
+  split at h
+  · cases h
+  · split at h
+    · cases h
+    · split at h
+      · cases h
+      · split at h
+        · cases h
+        · split at h
+          · rename_i st' hfin
+            simp only [Except.map] at h
+            injection h with h
+            unfold npFinalize at hfin
+            split at hfin
+            · cases hfin
+            · split at hfin
+              · cases hfin
+              · injection hfin with hfin
+                subst hfin; subst h
+                simp
+          · cases h
+
+/-- the loop of `_set_attrpath_value` fails only with ValueError, and ends in a set -/
+theorem setAttrpathWalk_res (ks : List Text) : ∀ (cur : Node) (d : Doc), cur.isSet = true →
+    (∃ current d1, setAttrpathWalk cur ks d = (.ok current, d1) ∧ current.isSet = true) ∨
+    (∃ d1, setAttrpathWalk cur ks d = (.error .value, d1)) := by
+  induction ks with
+  | nil => intro cur d h; exact Or.inl ⟨cur, d, rfl, h⟩
+  | cons k ks ih =>
+    intro cur d hset
+    obtain ⟨c, vs, o, m, r, rfl⟩ := (isSet_iff cur).mp hset
+    simp only [setAttrpathWalk]
+    cases hg : findNamedBinding (Node.set c vs o m r).setValues k (some true) with
+    | some b =>
+      simp only
+      cases hv : b.bindValue? with
+      | none => exact Or.inr ⟨d, rfl⟩
+      | some v =>
+        cases v with
+        | set s2 vs2 o2 m2 r2 => exact ih _ d rfl
+        | _ => exact Or.inr ⟨d, rfl⟩
+    | none =>
+      simp only
+      cases hg2 : (findNamedBinding (Node.set c vs o m r).setValues k (some false)).isSome with
+      | true => exact Or.inr ⟨d, by simp⟩
+      | false =>
+        simp only [Bool.false_eq_true, if_false, setSid_set, EditM.bind_apply, fresh_apply, appendValue_eq]
+        exact ih _ _ rfl
+
+theorem resolveParentWalk_isSet (cm : Bool) (ks : List Text) : ∀ (cur : Node) (d d1 : Doc) (parent : Node),
+    cur.isSet = true → resolveParentWalk cm cur ks d = (.ok parent, d1) → parent.isSet = true := by
+  induction ks with
+  | nil =>
+    intro cur d d1 parent hs h
+    rw [resolveParentWalk_nil] at h
+    injection h with h1 _; injection h1 with h1; subst h1; exact hs
+  | cons k ks ih =>
+    intro cur d d1 parent hs h
+    simp only [resolveParentWalk] at h
+    cases hg : setGetItem cur k with
+    | ok val =>
+      simp only [hg] at h
+      cases val with
+      | set s2 vs2 o2 m2 r2 => exact ih _ d d1 parent rfl h
+      | _ => simp only [EditM.throw_apply] at h; cases h
+    | error e =>
+      simp only [hg] at h
+      cases cm with
+      | false => simp only [Bool.not_false, if_true, EditM.throw_apply] at h; cases h
+      | true =>
+        simp only [Bool.not_true, Bool.false_eq_true, if_false] at h
+        cases hsid : cur.setSid? with
+        | none => simp only [hsid, EditM.throw_apply] at h; cases h
+        | some c =>
+          simp only [hsid, EditM.bind_apply, fresh_apply] at h
+          split at h
+          · exact ih _ _ d1 parent rfl h
+          · cases h
+
+theorem bindAt_snoc (init : List Text) (final : Text) : ∀ (T par : Node), subAt T init = some par →
+    bindAt T (init ++ [final]) = findBinding par.setValues final := by
+  induction init with
+  | nil => intro T par h; simp at h; subst h; rfl
+  | cons k ks ih =>
+    intro T par h
+    simp only [subAt] at h
+    cases hs : stepInto T k with
+    | none => simp [hs] at h
+    | some v =>
+      simp only [hs] at h
+      rw [List.cons_append, bindAt_cons _ k _ (by simp), hs]
+      exact ih v par h
+
+/-- with `require_root`, `_walk_attrpath_stack` either returns a stack or raises KeyError / ValueError -/
+theorem go_true_res (ln : Bool) (ks : List Text) : ∀ (cur : Node) (acc : List (Node × Node)),
+    (∃ st, walkAttrpathStack.go ln true cur acc ks = .ok (some st) ∧
+      walkAttrpathStack.go ln false cur acc ks = .ok (some st)) ∨
+    walkAttrpathStack.go ln true cur acc ks = .error .key ∨
+    walkAttrpathStack.go ln true cur acc ks = .error .value := by
+  induction ks with
+  | nil => intro cur acc; left; exact ⟨acc, by rw [walkAttrpathStack.go.eq_1], by rw [walkAttrpathStack.go.eq_1]⟩
+  | cons k ks ih =>
+    intro cur acc
+    cases ks with
+    | nil =>
+      rw [walkAttrpathStack.go.eq_2, walkAttrpathStack.go.eq_2]
+      cases hf : findNamedBinding cur.setValues k (some ln) with
+      | none => right; left; simp
+      | some b => left; exact ⟨_, rfl, rfl⟩
+    | cons k2 ks2 =>
+      rw [walkAttrpathStack.go.eq_3 _ _ _ _ _ _ (by simp), walkAttrpathStack.go.eq_3 _ _ _ _ _ _ (by simp)]
+      cases hf : findNamedBinding cur.setValues k (some true) with
+      | none => right; left; simp
+      | some b =>
+        simp only
+        cases hv : b.bindValue? with
+        | none => right; right; simp
+        | some v =>
+          cases v with
+          | set s2 vs2 o2 m2 r2 => exact ih _ _
+          | _ => right; right; simp
+
+theorem walk_true_res (ts : Node) (segs : List Text) (ln : Bool) :
+    (∃ st, walkAttrpathStack ts segs ln true = .ok (some st) ∧
+      walkAttrpathStack ts segs ln false = .ok (some st)) ∨
+    walkAttrpathStack ts segs ln true = .error .key ∨
+    walkAttrpathStack ts segs ln true = .error .value := by
+  unfold walkAttrpathStack
+  cases segs with
+  | nil => right; left; simp
+  | cons root rest =>
+    cases rest with
+    | nil => right; left; simp
+    | cons k2 ks2 =>
+      simp only
+      cases hf : findAttrpathRoot ts.setValues root with
+      | none => right; left; simp
+      | some b =>
+        simp only
+        cases hv : b.bindValue? with
+        | none => right; left; simp
+        | some v =>
+          cases v with
+          | set s2 vs2 o2 m2 r2 => exact go_true_res ln _ _ _
+          | _ => right; left; simp
+
+theorem take_dropLast {α} (l : List α) (j : Nat) (h : j < l.length) : l.dropLast.take j = l.take j := by
+  rw [List.dropLast_eq_take, List.take_take]; congr 1; omega
+
 end Nima
